@@ -216,6 +216,440 @@ theorem cut_write {c : Cfg} {hf ht : Host} (w : Bytes) (hc : Cut c hf ht) : Cut 
           · simp only [truncReports, hx, if_false, List.tail_cons]
             exact mute_map r
 
+/-! ### the simulation framework -/
+
+/-- outcome of the pair of runs: in lock-step (same result, still related), or the cut run landed in the class `Q` -/
+def Res (c : Cfg) {α} (Q : Except HErr α → Host → Prop) (xf xt : Except HErr α × Host) : Prop :=
+  (xt.1 = xf.1 ∧ Cut c xf.2 xt.2) ∨ Q xt.1 xt.2
+
+def LS (c : Cfg) {α} (m : H α) (Q : Except HErr α → Host → Prop) : Prop :=
+  ∀ hf ht, Cut c hf ht → Res c Q (m hf) (m ht)
+
+def HT {α} (P : Host → Prop) (m : H α) (Q : Except HErr α → Host → Prop) : Prop :=
+  ∀ h, P h → Q (m h).1 (m h).2
+
+/-- from a dead host the run lands in `Q`; from a related pair the runs stay in lock-step or the cut one lands in `Q` -/
+def G (c : Cfg) {α} (m : H α) (Q : Except HErr α → Host → Prop) : Prop := HT (Dead c) m Q ∧ LS c m Q
+
+/-- the standard failure class: the host is dead; a value, if one is returned at all, satisfies `S` -/
+def QD (c : Cfg) {α} (S : α → Host → Prop) : Except HErr α → Host → Prop :=
+  fun r h => Dead c h ∧ ∀ a, r = .ok a → S a h
+
+/-- always an exception -/
+abbrev QE (c : Cfg) {α} : Except HErr α → Host → Prop := QD c (fun _ _ => False)
+/-- anything, but dead -/
+abbrev QT (c : Cfg) {α} : Except HErr α → Host → Prop := QD c (fun _ _ => True)
+
+def ErrOK (c : Cfg) {α} (Q : Except HErr α → Host → Prop) : Prop := ∀ e h, Dead c h → Q (.error e) h
+
+theorem QD_err {c : Cfg} {α} (S : α → Host → Prop) : ErrOK c (QD c S) :=
+  fun _ _ hd => ⟨hd, fun _ h => by cases h⟩
+
+def NS : Except HErr Val → Host → Prop := fun r h => ¬ succeeded r h
+
+theorem NS_err {c : Cfg} : ErrOK c NS := fun e h _ => not_succeeded_error e h
+
+theorem QD_mono {c : Cfg} {α} {S S' : α → Host → Prop} (hS : ∀ a h, Dead c h → S a h → S' a h) {r : Except HErr α} {h : Host}
+    (hq : QD c S r h) : QD c S' r h := ⟨hq.1, fun a e => hS a h hq.1 (hq.2 a e)⟩
+
+theorem G_mono {c : Cfg} {α} {m : H α} {Q Q' : Except HErr α → Host → Prop} (hm : G c m Q) (hQ : ∀ r h, Q r h → Q' r h) :
+    G c m Q' := by
+  refine ⟨fun h hd => hQ _ _ (hm.1 h hd), fun hf ht hc => ?_⟩
+  rcases hm.2 hf ht hc with h1 | h1
+  · exact Or.inl h1
+  · exact Or.inr (hQ _ _ h1)
+
+theorem LS_pure {c : Cfg} {α} (a : α) (Q : Except HErr α → Host → Prop) : LS c (pure a : H α) Q :=
+  fun _ _ hc => Or.inl ⟨rfl, hc⟩
+
+theorem LS_fail {c : Cfg} {α} (e : HErr) (Q : Except HErr α → Host → Prop) : LS c (fail e : H α) Q :=
+  fun _ _ hc => Or.inl ⟨rfl, hc⟩
+
+theorem LS_lift {c : Cfg} {α} (x : Except HErr α) (Q : Except HErr α → Host → Prop) : LS c (lift x : H α) Q :=
+  fun _ _ hc => Or.inl ⟨rfl, hc⟩
+
+theorem G_pure {c : Cfg} {α} (a : α) {Q : Except HErr α → Host → Prop} (hq : ∀ h, Dead c h → Q (.ok a) h) :
+    G c (pure a : H α) Q := ⟨fun h hd => hq h hd, LS_pure a Q⟩
+
+theorem G_fail {c : Cfg} {α} (e : HErr) {Q : Except HErr α → Host → Prop} (hq : ErrOK c Q) :
+    G c (fail e : H α) Q := ⟨fun h hd => hq e h hd, LS_fail e Q⟩
+
+theorem G_lift {c : Cfg} {α} (x : Except HErr α) {Q : Except HErr α → Host → Prop} (hq : ∀ h, Dead c h → Q x h) :
+    G c (lift x : H α) Q := ⟨fun h hd => hq h hd, LS_lift x Q⟩
+
+theorem HT_bind {c : Cfg} {α β} {P : Host → Prop} {m : H α} {f : α → H β} {S : α → Host → Prop}
+    {Q : Except HErr β → Host → Prop}
+    (hm : HT P m (QD c S)) (he : ErrOK c Q) (hk : ∀ a h, Dead c h → S a h → Q (f a h).1 (f a h).2) :
+    HT P (m >>= f) Q := by
+  intro h hp
+  have := hm h hp
+  simp only [bind_run]
+  rcases hmh : m h with ⟨r, h'⟩
+  rw [hmh] at this
+  cases r with
+  | error e => exact he e h' this.1
+  | ok a => exact hk a h' this.1 (this.2 a rfl)
+
+theorem LS_bind {c : Cfg} {α β} {m : H α} {f : α → H β} {S : α → Host → Prop} {Q : Except HErr β → Host → Prop}
+    (hm : LS c m (QD c S)) (hf : ∀ a, LS c (f a) Q) (he : ErrOK c Q)
+    (hk : ∀ a h, Dead c h → S a h → Q (f a h).1 (f a h).2) : LS c (m >>= f) Q := by
+  intro hf' ht' hc
+  have := hm hf' ht' hc
+  simp only [bind_run]
+  rcases hmf : m hf' with ⟨rf, sf⟩
+  rcases hmt : m ht' with ⟨rt, st⟩
+  rw [hmf, hmt] at this
+  rcases this with ⟨e, hc'⟩ | ⟨hd, hS⟩
+  · simp only at e hc'
+    subst e
+    cases rt with
+    | error e => exact Or.inl ⟨rfl, hc'⟩
+    | ok a => exact hf a sf st hc'
+  · simp only at hd hS
+    cases rt with
+    | error e => exact Or.inr (he e st hd)
+    | ok a => exact Or.inr (hk a st hd (hS a rfl))
+
+theorem G_bind {c : Cfg} {α β} {m : H α} {f : α → H β} {S : α → Host → Prop} {Q : Except HErr β → Host → Prop}
+    (hm : G c m (QD c S)) (hf : ∀ a, LS c (f a) Q) (he : ErrOK c Q)
+    (hk : ∀ a h, Dead c h → S a h → Q (f a h).1 (f a h).2) : G c (m >>= f) Q :=
+  ⟨HT_bind hm.1 he hk, LS_bind hm.2 hf he hk⟩
+
+theorem G_bindG {c : Cfg} {α β} {m : H α} {f : α → H β} {S : α → Host → Prop} {Q : Except HErr β → Host → Prop}
+    (hm : G c m (QD c S)) (hf : ∀ a, G c (f a) Q) (he : ErrOK c Q) : G c (m >>= f) Q :=
+  G_bind hm (fun a => (hf a).2) he (fun a h hd _ => (hf a).1 h hd)
+
+theorem HT_catch {c : Cfg} {α} {P : Host → Prop} {m : H α} {hd : HErr → H α} {S : α → Host → Prop}
+    {Q : Except HErr α → Host → Prop}
+    (hm : HT P m (QD c S)) (hok : ∀ a h, Dead c h → S a h → Q (.ok a) h)
+    (hk : ∀ e h, Dead c h → Q (hd e h).1 (hd e h).2) : HT P (catch_ m hd) Q := by
+  intro h hp
+  have := hm h hp
+  simp only [catch_run]
+  rcases hmh : m h with ⟨r, h'⟩
+  rw [hmh] at this
+  cases r with
+  | error e => exact hk e h' this.1
+  | ok a => exact hok a h' this.1 (this.2 a rfl)
+
+theorem LS_catch {c : Cfg} {α} {m : H α} {hd : HErr → H α} {S : α → Host → Prop} {Q : Except HErr α → Host → Prop}
+    (hm : LS c m (QD c S)) (hh : ∀ e, LS c (hd e) Q) (hok : ∀ a h, Dead c h → S a h → Q (.ok a) h)
+    (hk : ∀ e h, Dead c h → Q (hd e h).1 (hd e h).2) : LS c (catch_ m hd) Q := by
+  intro hf' ht' hc
+  have := hm hf' ht' hc
+  simp only [catch_run]
+  rcases hmf : m hf' with ⟨rf, sf⟩
+  rcases hmt : m ht' with ⟨rt, st⟩
+  rw [hmf, hmt] at this
+  rcases this with ⟨e, hc'⟩ | ⟨hd', hS⟩
+  · simp only at e hc'
+    subst e
+    cases rt with
+    | error e => exact hh e sf st hc'
+    | ok a => exact Or.inl ⟨rfl, hc'⟩
+  · simp only at hd' hS
+    cases rt with
+    | error e => exact Or.inr (hk e st hd')
+    | ok a => exact Or.inr (hok a st hd' (hS a rfl))
+
+theorem G_catch {c : Cfg} {α} {m : H α} {hd : HErr → H α} {S : α → Host → Prop} {Q : Except HErr α → Host → Prop}
+    (hm : G c m (QD c S)) (hh : ∀ e, G c (hd e) Q) (hok : ∀ a h, Dead c h → S a h → Q (.ok a) h) : G c (catch_ m hd) Q :=
+  ⟨HT_catch hm.1 hok (fun e h hd' => (hh e).1 h hd'), LS_catch hm.2 (fun e => (hh e).2) hok (fun e h hd' => (hh e).1 h hd')⟩
+
+/-- `let h ← get; f h`: what `f` looks at is the same on both sides -/
+theorem G_get {c : Cfg} {α} {f : Host → H α} {Q : Except HErr α → Host → Prop}
+    (hfeq : ∀ hf ht, Cut c hf ht → f ht = f hf) (hf : ∀ h0, h0.cfg = c → LS c (f h0) Q)
+    (hk : ∀ h, Dead c h → Q (f h h).1 (f h h).2) : G c (get >>= f) Q := by
+  refine ⟨fun h hd => ?_, fun hf' ht' hc => ?_⟩
+  · simp only [bind_run, get_run]; exact hk h hd
+  · simp only [bind_run, get_run]
+    rw [hfeq hf' ht' hc]
+    exact hf hf' hc.cfgf hf' ht' hc
+
+theorem G_getG {c : Cfg} {α} {f : Host → H α} {Q : Except HErr α → Host → Prop}
+    (hfeq : ∀ hf ht, Cut c hf ht → f ht = f hf) (hf : ∀ h0, h0.cfg = c → G c (f h0) Q) : G c (get >>= f) Q :=
+  G_get hfeq (fun h0 e => (hf h0 e).2) (fun h hd => (hf h hd.cfg).1 h hd)
+
+theorem G_modify {c : Cfg} {g : Host → Host} {Q : Except HErr Unit → Host → Prop}
+    (hc : ∀ hf ht, Cut c hf ht → Cut c (g hf) (g ht)) (hq : ∀ h, Dead c h → Q (.ok ()) (g h)) : G c (modify g) Q :=
+  ⟨fun h hd => hq h hd, fun hf ht h => Or.inl ⟨rfl, hc hf ht h⟩⟩
+
+theorem G_devWrite {c : Cfg} (w : Bytes) : G c (devWrite w) (QT c) :=
+  G_modify (fun _ _ h => cut_write w h) (fun _ hd => ⟨dead_write w hd, fun _ _ => trivial⟩)
+
+theorem cut_status {c : Cfg} {hf ht : Host} (st : Nat) (h : Cut c hf ht) :
+    Cut c { hf with status := st } { ht with status := st } :=
+  ⟨h.cfgf, h.cfgt, rfl, h.mps, h.eda, h.opened, h.txRev, h.fuelHint, h.preB, h.preR, h.stream⟩
+
+theorem dead_status {c : Cfg} {h : Host} (st : Nat) (hd : Dead c h) : Dead c { h with status := st } :=
+  ⟨hd.cfg, hd.peer, hd.rxB, hd.rxR⟩
+
+theorem G_setStatus {c : Cfg} (st : Nat) : G c (setStatus st) (QD c (fun _ h => h.status = st)) :=
+  G_modify (fun _ _ h => cut_status st h) (fun _ hd => ⟨dead_status st hd, fun _ _ => rfl⟩)
+
+/-! ### the read primitives -/
+
+theorem cut_rxB {c : Cfg} {hf ht : Host} (bf bt : Bytes) (a b : Nat) (h : Cut c hf ht) (hp : bt <+: bf)
+    (he : ht.rxB = hf.rxB → bt = bf) : Cut c { hf with rxB := bf, reads := a } { ht with rxB := bt, reads := b } := by
+  refine ⟨h.cfgf, h.cfgt, h.status, h.mps, h.eda, h.opened, h.txRev, h.fuelHint, hp, h.preR, ?_⟩
+  rcases h.stream with hm | ⟨eB, eR, j, cs, h1, h2⟩
+  · exact Or.inl hm
+  · exact Or.inr ⟨he eB, eR, j, cs, h1, h2⟩
+
+theorem cut_rxR {c : Cfg} {hf ht : Host} (bf bt : List Bytes) (a b : Nat) (h : Cut c hf ht) (hp : bt <+: bf)
+    (he : ht.rxR = hf.rxR → bt = bf) : Cut c { hf with rxR := bf, reads := a } { ht with rxR := bt, reads := b } := by
+  refine ⟨h.cfgf, h.cfgt, h.status, h.mps, h.eda, h.opened, h.txRev, h.fuelHint, h.preB, hp, ?_⟩
+  rcases h.stream with hm | ⟨eB, eR, j, cs, h1, h2⟩
+  · exact Or.inl hm
+  · exact Or.inr ⟨eB, he eR, j, cs, h1, h2⟩
+
+theorem devRead_nil (n : Nat) (h : Host) (hb : h.rxB = []) : devRead n h = (.error .timeout, bump h) := by
+  unfold devRead bump
+  simp [hb]
+
+theorem devRead_zero (h : Host) : devRead 0 h = (.error .timeout, bump h) := by
+  unfold devRead bump
+  simp
+
+theorem devRead_ok (n : Nat) (h : Host) (hn : n ≠ 0) (hle : n ≤ h.rxB.length) :
+    devRead n h = (.ok (h.rxB.take n), { h with reads := h.reads + 1, rxB := h.rxB.drop n }) := by
+  unfold devRead
+  have : h.rxB.isEmpty = false := by
+    cases hb : h.rxB with
+    | nil => rw [hb] at hle; simp at hle; exact absurd hle hn
+    | cons _ _ => rfl
+  simp only [hn, this, false_or, Bool.false_eq_true, if_false, hle, if_true]
+
+theorem devRead_short (n : Nat) (h : Host) (hne : h.rxB ≠ []) (hlt : h.rxB.length < n) (hs : h.cfg.partialReads = false) :
+    devRead n h = (.error .timeout, { h with reads := h.reads + 1, rxB := [] }) := by
+  unfold devRead
+  have : h.rxB.isEmpty = false := by
+    cases hb : h.rxB with
+    | nil => exact absurd hb hne
+    | cons _ _ => rfl
+  have hn : n ≠ 0 := by omega
+  have hle : ¬ n ≤ h.rxB.length := by omega
+  simp only [hn, this, false_or, Bool.false_eq_true, if_false, hle, hs]
+
+theorem cut_bump {c : Cfg} {hf ht : Host} (h : Cut c hf ht) : Cut c (bump hf) (bump ht) :=
+  ⟨h.cfgf, h.cfgt, h.status, h.mps, h.eda, h.opened, h.txRev, h.fuelHint, h.preB, h.preR, h.stream⟩
+
+theorem dead_bump {c : Cfg} {h : Host} (hd : Dead c h) : Dead c (bump h) := ⟨hd.cfg, hd.peer, hd.rxB, hd.rxR⟩
+
+theorem prefix_eq_of_length {α} {a b : List α} (hp : a <+: b) (hl : b.length ≤ a.length) : a = b := by
+  obtain ⟨s, rfl⟩ := hp
+  have : s = [] := List.length_eq_zero_iff.mp (by simp only [List.length_append] at hl; omega)
+  simp [this]
+
+theorem G_devRead {c : Cfg} (htr : c.tr = .serial) (hstrict : c.partialReads = false) (n : Nat) :
+    G c (devRead n) (QE c) := by
+  refine ⟨fun h hd => ?_, fun hf ht hc => ?_⟩
+  · rw [devRead_nil n h (hd.rxB htr)]
+    exact ⟨dead_bump hd, fun _ h => by cases h⟩
+  · have hpf : hf.cfg.partialReads = false := by rw [hc.cfgf]; exact hstrict
+    have hpt : ht.cfg.partialReads = false := by rw [hc.cfgt]; exact hstrict
+    have hno : ¬ c.tr = .hid := by rw [htr]; intro h; cases h
+    by_cases hn : n = 0
+    · subst hn
+      rw [devRead_zero, devRead_zero]
+      exact Or.inl ⟨rfl, cut_bump hc⟩
+    · by_cases hbt : ht.rxB = []
+      · rw [devRead_nil n ht hbt]
+        rcases hc.stream with hm | ⟨eB, _⟩
+        · exact Or.inr ⟨⟨hc.cfgt, hm, fun _ => hbt, fun x => absurd x hno⟩, fun _ h => by cases h⟩
+        · rw [devRead_nil n hf (by rw [← eB]; exact hbt)]
+          exact Or.inl ⟨rfl, cut_bump hc⟩
+      · by_cases hle : n ≤ ht.rxB.length
+        · have hle2 : n ≤ hf.rxB.length := Nat.le_trans hle hc.preB.length_le
+          rw [devRead_ok n ht hn hle, devRead_ok n hf hn hle2]
+          obtain ⟨s, hs⟩ := hc.preB
+          left
+          refine ⟨?_, ?_⟩
+          · simp only [← hs, List.take_append_of_le_length hle]
+          · refine cut_rxB _ _ _ _ hc ?_ (fun e => by rw [e])
+            rw [← hs, List.drop_append_of_le_length hle]
+            exact List.prefix_append _ _
+        · rw [devRead_short n ht hbt (by omega) hpt]
+          rcases hc.stream with hm | ⟨eB, _⟩
+          · exact Or.inr ⟨⟨hc.cfgt, hm, fun _ => rfl, fun x => absurd x hno⟩, fun _ h => by cases h⟩
+          · rw [devRead_short n hf (by rw [← eB]; exact hbt) (by rw [← eB]; omega) hpf]
+            exact Or.inl ⟨rfl, cut_rxB _ _ _ _ hc (List.prefix_refl _) (fun _ => rfl)⟩
+
+theorem hidDevRead_nil (h : Host) (hb : h.rxR = []) : hidDevRead h = (.error .timeout, bump h) := by
+  unfold hidDevRead bump
+  simp [hb]
+
+theorem hidDevRead_cons (h : Host) (x : Bytes) (r : List Bytes) (hb : h.rxR = x :: r) :
+    hidDevRead h = (if x.isEmpty then .error .timeout else .ok x, { h with reads := h.reads + 1, rxR := r }) := by
+  unfold hidDevRead
+  simp only [hb]
+  split <;> rfl
+
+theorem G_hidDevRead {c : Cfg} (htr : c.tr = .hid) : G c hidDevRead (QE c) := by
+  have hno : ¬ c.tr = .serial := by rw [htr]; intro h; cases h
+  refine ⟨fun h hd => ?_, fun hf ht hc => ?_⟩
+  · rw [hidDevRead_nil h (hd.rxR htr)]
+    exact ⟨dead_bump hd, fun _ h => by cases h⟩
+  · cases hbt : ht.rxR with
+    | nil =>
+      rw [hidDevRead_nil ht hbt]
+      rcases hc.stream with hm | ⟨_, eR, _⟩
+      · exact Or.inr ⟨⟨hc.cfgt, hm, fun x => absurd x hno, fun _ => hbt⟩, fun _ h => by cases h⟩
+      · rw [hidDevRead_nil hf (by rw [← eR]; exact hbt)]
+        exact Or.inl ⟨rfl, cut_bump hc⟩
+    | cons x r =>
+      obtain ⟨s, hs⟩ := hc.preR
+      rw [hbt] at hs
+      rw [hidDevRead_cons ht x r hbt, hidDevRead_cons hf x (r ++ s) (by rw [← hs]; rfl)]
+      refine Or.inl ⟨rfl, cut_rxR _ _ _ _ hc (List.prefix_append _ _) ?_⟩
+      intro e
+      rw [hbt, ← hs] at e
+      have : s = [] := by
+        have := congrArg List.length e
+        simp only [List.length_cons, List.length_append] at this
+        exact List.length_eq_zero_iff.mp (by omega)
+      simp [this]
+
+/-! ### more rules -/
+
+theorem LS_ite {c : Cfg} {α} {p : Prop} [Decidable p] {A B : H α} {Q : Except HErr α → Host → Prop}
+    (hA : LS c A Q) (hB : LS c B Q) : LS c (if p then A else B) Q := by
+  split
+  · exact hA
+  · exact hB
+
+theorem G_ite {c : Cfg} {α} {p : Prop} [Decidable p] {A B : H α} {Q : Except HErr α → Host → Prop}
+    (hA : G c A Q) (hB : G c B Q) : G c (if p then A else B) Q := by
+  split
+  · exact hA
+  · exact hB
+
+theorem LS_bindE {c : Cfg} {α β} {m : H α} {f : α → H β} {Q : Except HErr β → Host → Prop}
+    (hm : LS c m (QE c)) (hf : ∀ a, LS c (f a) Q) (he : ErrOK c Q) : LS c (m >>= f) Q :=
+  LS_bind hm hf he (fun _ _ _ hF => hF.elim)
+
+theorem G_bindE {c : Cfg} {α β} {m : H α} {f : α → H β} {Q : Except HErr β → Host → Prop}
+    (hm : G c m (QE c)) (hf : ∀ a, LS c (f a) Q) (he : ErrOK c Q) : G c (m >>= f) Q :=
+  G_bind hm hf he (fun _ _ _ hF => hF.elim)
+
+theorem LS_modify {c : Cfg} {g : Host → Host} (Q : Except HErr Unit → Host → Prop)
+    (hc : ∀ hf ht, Cut c hf ht → Cut c (g hf) (g ht)) : LS c (modify g) Q :=
+  fun hf ht h => Or.inl ⟨rfl, hc hf ht h⟩
+
+theorem LS_devWrite {c : Cfg} (w : Bytes) (Q : Except HErr Unit → Host → Prop) : LS c (devWrite w) Q :=
+  LS_modify Q (fun _ _ h => cut_write w h)
+
+theorem LS_setStatus {c : Cfg} (st : Nat) (Q : Except HErr Unit → Host → Prop) : LS c (setStatus st) Q :=
+  LS_modify Q (fun _ _ h => cut_status st h)
+
+theorem LS_get {c : Cfg} {α} {f : Host → H α} {Q : Except HErr α → Host → Prop}
+    (hfeq : ∀ hf ht, Cut c hf ht → f ht = f hf) (hf : ∀ h0, h0.cfg = c → LS c (f h0) Q) : LS c (get >>= f) Q := by
+  intro hf' ht' hc
+  simp only [bind_run, get_run]
+  rw [hfeq hf' ht' hc]
+  exact hf hf' hc.cfgf hf' ht' hc
+
+theorem devRead_len (n : Nat) (h h' : Host) (b : Bytes) (hs : h.cfg.partialReads = false)
+    (hr : devRead n h = (.ok b, h')) : h'.rxB.length < h.rxB.length := by
+  by_cases hn : n = 0
+  · subst hn; rw [devRead_zero] at hr; cases hr
+  · by_cases hb : h.rxB = []
+    · rw [devRead_nil n h hb] at hr; cases hr
+    · have hpos : 0 < h.rxB.length := List.length_pos_iff.mpr hb
+      by_cases hle : n ≤ h.rxB.length
+      · rw [devRead_ok n h hn hle] at hr
+        simp only [Prod.mk.injEq, Except.ok.injEq] at hr
+        obtain ⟨_, rfl⟩ := hr
+        simp only [List.length_drop]
+        omega
+      · rw [devRead_short n h hb (by omega) hs] at hr; cases hr
+
+/-! ### the serial link -/
+
+section serial
+variable {c : Cfg} (htr : c.tr = .serial) (hstrict : c.partialReads = false)
+include htr hstrict
+
+theorem HT_waitGo (f : Nat) : HT (Dead c) (waitGo f) (QE c) := by
+  cases f with
+  | zero => exact fun h hd => ⟨hd, fun _ e => by cases e⟩
+  | succ f =>
+    unfold waitGo
+    exact HT_bind (G_devRead htr hstrict 1).1 (QD_err _) (fun _ _ _ hF => hF.elim)
+
+theorem LS_waitGo : ∀ (ft ff : Nat) (hf ht : Host), Cut c hf ht → ht.rxB.length < ft → hf.rxB.length < ff →
+    Res c (QE c) (waitGo ff hf) (waitGo ft ht) := by
+  intro ft
+  induction ft with
+  | zero => intro ff hf ht _ h; omega
+  | succ ft ih =>
+    intro ff hf ht hc h1 h2
+    cases ff with
+    | zero => omega
+    | succ ff =>
+      simp only [waitGo, bind_run]
+      have hr := (G_devRead htr hstrict 1).2 hf ht hc
+      rcases hdf : devRead 1 hf with ⟨rf, sf⟩
+      rcases hdt : devRead 1 ht with ⟨rt, st⟩
+      rw [hdf, hdt] at hr
+      rcases hr with ⟨e, hc'⟩ | ⟨hd, hS⟩
+      · simp only at e hc'
+        subst e
+        cases rt with
+        | error e => exact Or.inl ⟨rfl, hc'⟩
+        | ok b =>
+          have l1 := devRead_len 1 _ _ _ (by rw [hc.cfgf]; exact hstrict) hdf
+          have l2 := devRead_len 1 _ _ _ (by rw [hc.cfgt]; exact hstrict) hdt
+          simp only
+          by_cases hv : fromLe b = 0
+          · rw [if_pos hv, if_pos hv]
+            exact ih ff sf st hc' (by omega) (by omega)
+          · rw [if_neg hv, if_neg hv]
+            exact Or.inl ⟨rfl, hc'⟩
+      · simp only at hd hS
+        cases rt with
+        | error e => exact Or.inr ⟨hd, fun _ e => by cases e⟩
+        | ok b => exact (hS b rfl).elim
+
+theorem G_waitForData : G c waitForData (QE c) :=
+  ⟨fun h hd => HT_waitGo htr hstrict _ h hd,
+   fun hf ht hc => LS_waitGo htr hstrict _ _ hf ht hc (Nat.lt_succ_self _) (Nat.lt_succ_self _)⟩
+
+theorem G_readFrameHeader (e : Option Nat) : G c (readFrameHeader e) (QE c) := by
+  unfold readFrameHeader
+  refine G_bindE (G_waitForData htr hstrict) (fun header => ?_) (QD_err _)
+  refine LS_ite (LS_fail _ _) ?_
+  dsimp only
+  refine LS_ite ?_ ?_ <;> refine LS_bindE ?_ (fun ftype => ?_) (QD_err _)
+  any_goals
+    (refine LS_ite (LS_fail _ _) ?_
+     cases e with
+     | none => exact LS_pure _ _
+     | some e => exact LS_ite (LS_fail _ _) (LS_pure _ _))
+  · exact LS_pure _ _
+  · exact LS_bindE (G_devRead htr hstrict 1).2 (fun b => LS_pure _ _) (QD_err _)
+
+theorem G_serialRead : G c serialRead (QE c) := by
+  unfold serialRead
+  refine G_bindE (G_readFrameHeader htr hstrict none) (fun x => ?_) (QD_err _)
+  obtain ⟨_, ftype⟩ := x
+  refine LS_bindE (G_devRead htr hstrict 2).2 (fun lenB => ?_) (QD_err _)
+  refine LS_bindE (G_devRead htr hstrict 2).2 (fun crcB => ?_) (QD_err _)
+  refine LS_ite (LS_bindE (LS_devWrite _ _) (fun _ => LS_fail _ _) (QD_err _)) ?_
+  refine LS_bindE (G_devRead htr hstrict _).2 (fun data => ?_) (QD_err _)
+  refine LS_bindE (LS_devWrite _ _) (fun _ => ?_) (QD_err _)
+  refine LS_ite (LS_fail _ _) (LS_ite ?_ (LS_pure _ _))
+  cases parseCmdResponse data with
+  | ok r => exact LS_pure _ _
+  | error e => exact LS_fail _ _
+
+theorem G_serialSendFrame (t : Nat) (data : Bytes) : G c (serialSendFrame t data) (QE c) := by
+  unfold serialSendFrame
+  refine G_ite (G_fail _ (QD_err _)) ?_
+  exact G_bindG (G_devWrite _) (fun _ => G_bindE (G_readFrameHeader htr hstrict _) (fun _ => LS_pure _ _) (QD_err _)) (QD_err _)
+
+end serial
+
 /-- serial link, strict reads (`device.read(n)` returns `n` bytes or times out), replay peer: every byte position -/
 theorem truncation_safe_serial (h : Host) (op : Op) (k : Nat) (cs : List (List Bytes))
     (htr : h.cfg.tr = .serial) (hstrict : h.cfg.partialReads = false) (hpeer : h.peer = .script cs)
